@@ -109,7 +109,9 @@ def gen_wo_case(rng, cid, lattice):
     base = gen_dl.gen_strat_program(rng) if rng.random() < 0.3 else gen_dl.gen_program(rng, dict(nrels=[1, 2, 2, 3], nrules=[0, 1, 2, 3], p_multihead_recursive=0.15))
     brels = list(base["rels"])
     rules = list(base["rules"])
-    ws = [("w%d" % i, rng.choice([1, 2, 2, 3]), "rel") for i in range(rng.choice([1, 2, 2, 3]))]
+    ws = [("w%d" % i, rng.choice([0, 1, 1, 2, 2, 2, 3]), "rel") for i in range(rng.choice([1, 2, 2, 3]))]
+    if lattice and all(w[1] == 0 for w in ws):
+        ws[0] = (ws[0][0], rng.choice([1, 2, 3]), "rel")          # a lattice has at least its value column
     anchors = {w[0]: [] for w in ws}
     for w in ws:
         for _ in range(rng.choice([1, 1, 2])):
@@ -117,7 +119,7 @@ def gen_wo_case(rng, cid, lattice):
             vs = ["a%d" % i for i in range(s[1])]
             head = []
             for _ in range(w[1]):
-                u = rng.random()
+                u = rng.random() if vs else 1.0          # a source without columns (`relation r();`): constants only
                 if u < 0.62:
                     head.append(("v", rng.choice(vs)))
                 elif u < 0.82:
@@ -154,7 +156,8 @@ def gen_wo_case(rng, cid, lattice):
     rng.shuffle(rules)
     lat = []
     if lattice:
-        lat = [w[0] for w in ws if rng.random() < 0.6] or [ws[0][0]]
+        cand = [w[0] for w in ws if w[1] >= 1]
+        lat = [n for n in cand if rng.random() < 0.6] or [cand[0]]
     rederived = []
     for k in range(2):
         if facts_mode:
